@@ -427,6 +427,6 @@ pub fn apply(op: &Op, regs: &[MVal]) -> ModelOut {
         }),
         Op::Select { v, path, api } => Wrote(Ok(select(&regs[*v], path, api.mode()))),
         Op::WriteToVec { v } | Op::LazyWrite { v, .. } => one(regs[*v].clone()),
-        Op::ConvertToComparable { .. } => Wrote(Ok(vec![])),
+        Op::ConvertToComparable { .. } | Op::NumberEncode { .. } => Wrote(Ok(vec![])),
     }
 }
